@@ -398,14 +398,19 @@ def thorough_extras(prop, reg, under, a, t0):
             rc = 1
     if not a.no_mutants and not os.environ.get('PYVC_REPO'):
         from . import mutants as _m
-        for r in _m.battery(prop, jobs=3):
+        budget = float(os.environ.get('VERIF_THOROUGH_MUTANT_BUDGET_S', '1500'))     # stop starting new mutants after this long
+        for r in _m.battery(prop, jobs=3, deadline=time.time() + budget):
             extras['mutants'].append({k: r.get(k) for k in ('name', 'ok', 'rc', 'expect', 'violations', 'confirmed', 'why')})
+            if r.get('skipped'):
+                continue
             if not r['ok']:
                 print(f"SELF-CHECK property={prop} mutant {r['name']}: expected {r.get('expect')}, check exit {r.get('rc')} {r.get('why', '')}")
     p = os.path.join(OUT, 'evidence', f'{prop}.json')
     try:
         ev = json.load(open(p))
-        ms = extras['mutants']
+        not_run = [m for m in extras['mutants'] if m.get('why', '').startswith('not run')]
+        ms = [m for m in extras['mutants'] if m not in not_run]
+        extras['mutants_not_run_time_budget'] = len(not_run)
         breaking = [m for m in ms if m.get('expect') in (None, 'violation', 'undecided-or-violation')]
         extras['summary'] = dict(replay_batteries=len(extras['proactive_replays']), failing_inputs_found=sum(1 for x in extras['proactive_replays'] if x['failing_input_found']),
                                  mutants=len(ms), breaking_mutants=len(breaking), breaking_mutants_reported=sum(1 for m in breaking if m['ok']),
